@@ -1,6 +1,6 @@
 package main
 
-// locksites.go -- property C05 (b), second table: MUTEX ACQUISITIONS as blocking sites.
+// lockprogs.go -- property C05 (b), second table: MUTEX ACQUISITIONS as blocking sites.
 //
 // A sync.Mutex / sync.RWMutex acquisition offers no exit at all: the waiter leaves it only
 // when the holder releases.  It is bounded iff (1) every function that takes the mutex
@@ -21,9 +21,9 @@ package main
 //   SAlt a b                                     if / else, switch and select clauses (one of the branches)
 //   SLoop b   SCatch b                           for / range;   switch / select (a `break` inside ends it)
 //
-// Gen/GenLockSites.v holds these programs (lock_progs), the mutex table with the rank of
-// every mutex (lock_mutexes; the rank is only a witness, Coq checks that nested acquisitions
-// go strictly down) and the lock acquisitions met on the call path (lock_sites).  Balance,
+// Gen/GenLockProgs.v holds these programs (lockp_progs), the mutex table with the rank of
+// every mutex (lockp_mutexes; the rank is only a witness, Coq checks that nested acquisitions
+// go strictly down) and the lock acquisitions met on the call path (lockp_sites).  Balance,
 // the contents of the critical sections and the lock order are computed IN COQ from the
 // programs by a checker that is proved sound for every execution of a program
 // (Model/LockProg.v, Proofs/LockProgP.v); an edit that returns with a lock held, blocks
@@ -62,7 +62,7 @@ import (
 
 // entry points, in addition to waitEntries, whose closure is searched for lock
 // acquisitions: the connection's own goroutines, the inbound side of a call, the relay.
-var lockEntries = []string{
+var lockProgEntries = []string{
 	"Connection.readFrames", "Connection.writeFrames", "Connection.dispatchInbound",
 	"Connection.connectionError", "Connection.close", "Connection.Close",
 	"InboundCall.Arg2Reader", "InboundCall.Arg3Reader", "InboundCall.Response",
@@ -71,72 +71,72 @@ var lockEntries = []string{
 	"Relayer.Relay", "Relayer.Receive", "relayTimerPool.Get", "Channel.Ping", "Connection.ping",
 }
 
-// semaphore helpers: function name -> (acquire?)   (shape checked in lkCheckSem)
+// semaphore helpers: function name -> (acquire?)   (shape checked in lpCheckSem)
 const (
-	lkSemAcquire = "Peer.lockNewConn"
-	lkSemRelease = "Peer.unlockNewConn"
-	lkSemName    = "Peer.newConnLock"
+	lpSemAcquire = "Peer.lockNewConn"
+	lpSemRelease = "Peer.unlockNewConn"
+	lpSemName    = "Peer.newConnLock"
 )
 
-type lkMutex struct {
+type lpMutex struct {
 	name string
 	sem  bool
 	rank int
 }
 
-type lkStmt struct {
+type lpStmt struct {
 	op      string // lock unlock defer block call ret panic break cont alt loop catch
-	m       *lkMutex
+	m       *lpMutex
 	rd      bool
-	callees []*lkUnit
+	callees []*lpUnit
 	blk     bool
-	acq     []*lkMutex
-	a, b    []lkStmt
+	acq     []*lpMutex
+	a, b    []lpStmt
 	note    string
-	pOwner  *lkUnit // paramcall: the unit whose parameter is called, and its index
+	pOwner  *lpUnit // paramcall: the unit whose parameter is called, and its index
 	pIdx    int
 	fObj    types.Object // fieldcall: the field
 }
 
-type lkUnit struct {
+type lpUnit struct {
 	name     string
 	fn       *types.Func
 	body     *ast.BlockStmt
 	ftype    *ast.FuncType
 	pos      token.Pos
 	params   map[types.Object]int
-	raw      []lkStmt
+	raw      []lpStmt
 	mayBlock bool
 	why      string
-	acq      map[*lkMutex]bool
+	acq      map[*lpMutex]bool
 	hasLock  bool
 	nlit     int
-	parent   *lkUnit
+	parent   *lpUnit
 }
 
-type lkAnalysis struct {
+type lpAnalysis struct {
 	a         *wsAnalysis
 	t         *translator
-	units     []*lkUnit
-	byFn      map[*types.Func]*lkUnit
-	byLit     map[*ast.FuncLit]*lkUnit
-	localFn   map[types.Object][]*lkUnit
-	paramArgs map[*lkUnit]map[int][]*lkUnit
-	fieldFn   map[types.Object][]*lkUnit // func-typed struct field -> the function values stored into it anywhere in the package
-	mutexes   map[string]*lkMutex
-	sem       *lkMutex
+	units     []*lpUnit
+	byFn      map[*types.Func]*lpUnit
+	byLit     map[*ast.FuncLit]*lpUnit
+	localFn   map[types.Object][]*lpUnit
+	paramArgs map[*lpUnit]map[int][]*lpUnit
+	fieldFn   map[types.Object][]*lpUnit // func-typed struct field -> the function values stored into it anywhere in the package
+	mutexes   map[string]*lpMutex
+	sem       *lpMutex
 }
 
-func (l *lkAnalysis) mutex(name string) *lkMutex {
+func (l *lpAnalysis) mutex(name string) *lpMutex {
 	if m, ok := l.mutexes[name]; ok {
 		return m
 	}
-	m := &lkMutex{name: name}
+	m := &lpMutex{name: name}
 	l.mutexes[name] = m
 	return m
 }
 
-func lkTypeName(tp types.Type) string {
+func lpTypeName(tp types.Type) string {
 	if tp == nil {
 		return ""
 	}
@@ -149,12 +149,12 @@ func lkTypeName(tp types.Type) string {
 	return ""
 }
 
-func lkIsSyncMutex(tp types.Type) bool {
+func lpIsSyncMutex(tp types.Type) bool {
 	return tp != nil && (isNamed(tp, "sync", "Mutex") || isNamed(tp, "sync", "RWMutex"))
 }
 
 // fieldOfAnon: the "Type.field" of the package whose type is identical to the anonymous struct tp
-func (l *lkAnalysis) fieldOfAnon(tp types.Type) string {
+func (l *lpAnalysis) fieldOfAnon(tp types.Type) string {
 	if p, ok := tp.(*types.Pointer); ok {
 		tp = p.Elem()
 	}
@@ -177,7 +177,7 @@ func (l *lkAnalysis) fieldOfAnon(tp types.Type) string {
 }
 
 // mutexOp: X.Lock() / X.RLock() / X.Unlock() / X.RUnlock() on a sync mutex
-func (l *lkAnalysis) mutexOp(call *ast.CallExpr) (m *lkMutex, op string, rd bool, ok bool) {
+func (l *lpAnalysis) mutexOp(call *ast.CallExpr) (m *lpMutex, op string, rd bool, ok bool) {
 	sel, isSel := call.Fun.(*ast.SelectorExpr)
 	if !isSel {
 		return nil, "", false, false
@@ -202,10 +202,10 @@ func (l *lkAnalysis) mutexOp(call *ast.CallExpr) (m *lkMutex, op string, rd bool
 	rd = strings.HasPrefix(sel.Sel.Name, "R")
 	tx := l.a.typeOf(sel.X)
 	name := ""
-	if lkIsSyncMutex(tx) {
+	if lpIsSyncMutex(tx) {
 		switch x := sel.X.(type) {
 		case *ast.SelectorExpr:
-			if owner := lkTypeName(l.a.typeOf(x.X)); owner != "" {
+			if owner := lpTypeName(l.a.typeOf(x.X)); owner != "" {
 				name = owner + "." + x.Sel.Name
 			}
 		case *ast.Ident:
@@ -213,11 +213,11 @@ func (l *lkAnalysis) mutexOp(call *ast.CallExpr) (m *lkMutex, op string, rd bool
 				name = "var." + x.Name
 			}
 		}
-	} else if n := lkTypeName(tx); n != "" {
+	} else if n := lpTypeName(tx); n != "" {
 		name = n // embedded mutex of a named type
 	} else if tx != nil {
 		if x, isX := sel.X.(*ast.SelectorExpr); isX {
-			if owner := lkTypeName(l.a.typeOf(x.X)); owner != "" {
+			if owner := lpTypeName(l.a.typeOf(x.X)); owner != "" {
 				name = owner + "." + x.Sel.Name
 			}
 		}
@@ -236,8 +236,8 @@ func (l *lkAnalysis) mutexOp(call *ast.CallExpr) (m *lkMutex, op string, rd bool
 	return l.mutex(name), op, rd, true
 }
 
-func (l *lkAnalysis) newUnit(name string, fn *types.Func, ftype *ast.FuncType, body *ast.BlockStmt, parent *lkUnit) *lkUnit {
-	u := &lkUnit{name: name, fn: fn, body: body, ftype: ftype, pos: body.Pos(), params: map[types.Object]int{}, acq: map[*lkMutex]bool{}, parent: parent}
+func (l *lpAnalysis) newUnit(name string, fn *types.Func, ftype *ast.FuncType, body *ast.BlockStmt, parent *lpUnit) *lpUnit {
+	u := &lpUnit{name: name, fn: fn, body: body, ftype: ftype, pos: body.Pos(), params: map[types.Object]int{}, acq: map[*lpMutex]bool{}, parent: parent}
 	i := 0
 	if ftype.Params != nil {
 		for _, f := range ftype.Params.List {
@@ -259,7 +259,7 @@ func (l *lkAnalysis) newUnit(name string, fn *types.Func, ftype *ast.FuncType, b
 	return u
 }
 
-func (l *lkAnalysis) litUnit(u *lkUnit, lit *ast.FuncLit) *lkUnit {
+func (l *lpAnalysis) litUnit(u *lpUnit, lit *ast.FuncLit) *lpUnit {
 	if x, ok := l.byLit[lit]; ok {
 		return x
 	}
@@ -275,16 +275,16 @@ func (l *lkAnalysis) litUnit(u *lkUnit, lit *ast.FuncLit) *lkUnit {
 }
 
 // the unit a function-valued expression denotes (literal, declared function, method value)
-func (l *lkAnalysis) funcValue(u *lkUnit, e ast.Expr) []*lkUnit {
+func (l *lpAnalysis) funcValue(u *lpUnit, e ast.Expr) []*lpUnit {
 	switch x := e.(type) {
 	case *ast.ParenExpr:
 		return l.funcValue(u, x.X)
 	case *ast.FuncLit:
-		return []*lkUnit{l.litUnit(u, x)}
+		return []*lpUnit{l.litUnit(u, x)}
 	case *ast.Ident:
 		if fn, ok := l.a.info.Uses[x].(*types.Func); ok {
 			if t, ok := l.byFn[fn]; ok {
-				return []*lkUnit{t}
+				return []*lpUnit{t}
 			}
 		}
 		if obj := l.a.info.Uses[x]; obj != nil {
@@ -294,7 +294,7 @@ func (l *lkAnalysis) funcValue(u *lkUnit, e ast.Expr) []*lkUnit {
 		if s, ok := l.a.info.Selections[x]; ok && s.Kind() == types.MethodVal {
 			if fn, ok := s.Obj().(*types.Func); ok {
 				if t, ok := l.byFn[fn]; ok {
-					return []*lkUnit{t}
+					return []*lpUnit{t}
 				}
 			}
 		}
@@ -302,7 +302,7 @@ func (l *lkAnalysis) funcValue(u *lkUnit, e ast.Expr) []*lkUnit {
 	return nil
 }
 
-func lkIsFuncTyped(tp types.Type) bool {
+func lpIsFuncTyped(tp types.Type) bool {
 	if tp == nil {
 		return false
 	}
@@ -311,15 +311,15 @@ func lkIsFuncTyped(tp types.Type) bool {
 }
 
 // exprEvents: the events of evaluating node n (no statements inside except in literals)
-func (l *lkAnalysis) exprEvents(u *lkUnit, n ast.Node) []lkStmt {
-	var out []lkStmt
+func (l *lpAnalysis) exprEvents(u *lpUnit, n ast.Node) []lpStmt {
+	var out []lpStmt
 	if n == nil {
 		return nil
 	}
 	ast.Inspect(n, func(x ast.Node) bool {
 		switch e := x.(type) {
 		case *ast.KeyValueExpr:
-			if id, ok := e.Key.(*ast.Ident); ok && lkIsFuncTyped(l.a.typeOf(e.Value)) {
+			if id, ok := e.Key.(*ast.Ident); ok && lpIsFuncTyped(l.a.typeOf(e.Value)) {
 				if obj, ok := l.a.info.Uses[id].(*types.Var); ok && obj.IsField() {
 					if vals := l.funcValue(u, e.Value); len(vals) > 0 {
 						l.fieldFn[obj] = append(l.fieldFn[obj], vals...)
@@ -333,7 +333,7 @@ func (l *lkAnalysis) exprEvents(u *lkUnit, n ast.Node) []lkStmt {
 			return false
 		case *ast.UnaryExpr:
 			if e.Op == token.ARROW {
-				out = append(out, lkStmt{op: "block", note: l.t.pos(e) + " " + l.a.oneLine(e)})
+				out = append(out, lpStmt{op: "block", note: l.t.pos(e) + " " + l.a.oneLine(e)})
 			}
 		case *ast.CallExpr:
 			out = append(out, l.callEvents(u, e)...)
@@ -342,7 +342,7 @@ func (l *lkAnalysis) exprEvents(u *lkUnit, n ast.Node) []lkStmt {
 				out = append(out, l.exprEvents(u, e.Fun)...)
 			}
 			for _, arg := range e.Args {
-				if lkIsFuncTyped(l.a.typeOf(arg)) {
+				if lpIsFuncTyped(l.a.typeOf(arg)) {
 					if _, isLit := arg.(*ast.FuncLit); isLit {
 						continue
 					}
@@ -356,38 +356,38 @@ func (l *lkAnalysis) exprEvents(u *lkUnit, n ast.Node) []lkStmt {
 	return out
 }
 
-func (l *lkAnalysis) callEvents(u *lkUnit, call *ast.CallExpr) []lkStmt {
+func (l *lpAnalysis) callEvents(u *lpUnit, call *ast.CallExpr) []lpStmt {
 	pos := l.t.pos(call)
 	if m, op, rd, ok := l.mutexOp(call); ok {
-		return []lkStmt{{op: op, m: m, rd: rd, note: pos + " " + l.a.oneLine(call)}}
+		return []lpStmt{{op: op, m: m, rd: rd, note: pos + " " + l.a.oneLine(call)}}
 	}
 	if id, ok := call.Fun.(*ast.Ident); ok && id.Name == "panic" {
 		if _, isB := l.a.info.Uses[id].(*types.Builtin); isB {
-			return []lkStmt{{op: "panic", note: pos}}
+			return []lpStmt{{op: "panic", note: pos}}
 		}
 	}
-	var out []lkStmt
+	var out []lpStmt
 	// literal called at once
 	if lit, ok := call.Fun.(*ast.FuncLit); ok {
 		x := l.litUnit(u, lit)
-		return []lkStmt{{op: "call", callees: []*lkUnit{x}, note: pos + " func literal"}}
+		return []lpStmt{{op: "call", callees: []*lpUnit{x}, note: pos + " func literal"}}
 	}
 	if k := l.a.netKind(call); k != "" {
-		out = append(out, lkStmt{op: "block", note: pos + " " + k + " " + l.a.oneLine(call)})
+		out = append(out, lpStmt{op: "block", note: pos + " " + k + " " + l.a.oneLine(call)})
 	}
-	var cs []*lkUnit
+	var cs []*lpUnit
 	declared := l.a.calleesOf(call)
 	for _, c := range declared {
 		if c.Pkg() != nil && ((c.Pkg().Path() == "sync" && c.Name() == "Wait") || (c.Pkg().Path() == "time" && c.Name() == "Sleep")) {
-			out = append(out, lkStmt{op: "block", note: pos + " " + l.a.oneLine(call)})
+			out = append(out, lpStmt{op: "block", note: pos + " " + l.a.oneLine(call)})
 		}
 		if t, ok := l.byFn[c]; ok {
 			switch t.name {
-			case lkSemRelease:
-				out = append(out, lkStmt{op: "unlock", m: l.sem, note: pos + " " + l.a.oneLine(call)})
+			case lpSemRelease:
+				out = append(out, lpStmt{op: "unlock", m: l.sem, note: pos + " " + l.a.oneLine(call)})
 				continue
-			case lkSemAcquire:
-				failf("lock sites: %s is used at %s outside the form `if err := p.lockNewConn(ctx); err != nil {...}`", lkSemAcquire, pos)
+			case lpSemAcquire:
+				failf("lock sites: %s is used at %s outside the form `if err := p.lockNewConn(ctx); err != nil {...}`", lpSemAcquire, pos)
 			}
 			cs = append(cs, t)
 		}
@@ -396,7 +396,7 @@ func (l *lkAnalysis) callEvents(u *lkUnit, call *ast.CallExpr) []lkStmt {
 		// a call of a func-typed struct field: every function value stored into that field
 		if sel, ok := call.Fun.(*ast.SelectorExpr); ok {
 			if s, ok := l.a.info.Selections[sel]; ok && s.Kind() == types.FieldVal {
-				out = append(out, lkStmt{op: "fieldcall", fObj: s.Obj(), note: pos + " " + l.a.oneLine(call)})
+				out = append(out, lpStmt{op: "fieldcall", fObj: s.Obj(), note: pos + " " + l.a.oneLine(call)})
 			}
 		}
 		// a call of a local closure variable or of a func-typed parameter
@@ -406,7 +406,7 @@ func (l *lkAnalysis) callEvents(u *lkUnit, call *ast.CallExpr) []lkStmt {
 				for w := u; w != nil; w = w.parent {
 					if i, isParam := w.params[obj]; isParam {
 						// resolved after all units are known
-						out = append(out, lkStmt{op: "paramcall", pOwner: w, pIdx: i, note: fmt.Sprintf("%s parameter %d of %s", pos, i, w.name)})
+						out = append(out, lpStmt{op: "paramcall", pOwner: w, pIdx: i, note: fmt.Sprintf("%s parameter %d of %s", pos, i, w.name)})
 					}
 				}
 			}
@@ -414,7 +414,7 @@ func (l *lkAnalysis) callEvents(u *lkUnit, call *ast.CallExpr) []lkStmt {
 	}
 	// function values handed to a callee of the package: bound to its parameter
 	for i, arg := range call.Args {
-		if !lkIsFuncTyped(l.a.typeOf(arg)) {
+		if !lpIsFuncTyped(l.a.typeOf(arg)) {
 			continue
 		}
 		vals := l.funcValue(u, arg)
@@ -424,20 +424,20 @@ func (l *lkAnalysis) callEvents(u *lkUnit, call *ast.CallExpr) []lkStmt {
 		for _, c := range declared {
 			if t, ok := l.byFn[c]; ok {
 				if l.paramArgs[t] == nil {
-					l.paramArgs[t] = map[int][]*lkUnit{}
+					l.paramArgs[t] = map[int][]*lpUnit{}
 				}
 				l.paramArgs[t][i] = append(l.paramArgs[t][i], vals...)
 			}
 		}
 	}
 	if len(cs) > 0 {
-		out = append(out, lkStmt{op: "call", callees: cs, note: pos + " " + l.a.oneLine(call)})
+		out = append(out, lpStmt{op: "call", callees: cs, note: pos + " " + l.a.oneLine(call)})
 	}
 	return out
 }
 
-func (l *lkAnalysis) stmts(u *lkUnit, list []ast.Stmt) []lkStmt {
-	var out []lkStmt
+func (l *lpAnalysis) stmts(u *lpUnit, list []ast.Stmt) []lpStmt {
+	var out []lpStmt
 	for _, s := range list {
 		out = append(out, l.stmt(u, s)...)
 	}
@@ -445,7 +445,7 @@ func (l *lkAnalysis) stmts(u *lkUnit, list []ast.Stmt) []lkStmt {
 }
 
 // semAcquireIf: `if err := p.lockNewConn(ctx); err != nil { A }` -> (call, true)
-func (l *lkAnalysis) semAcquireIf(s *ast.IfStmt) bool {
+func (l *lpAnalysis) semAcquireIf(s *ast.IfStmt) bool {
 	as, ok := s.Init.(*ast.AssignStmt)
 	if !ok || len(as.Rhs) != 1 || len(as.Lhs) != 1 {
 		return false
@@ -456,7 +456,7 @@ func (l *lkAnalysis) semAcquireIf(s *ast.IfStmt) bool {
 	}
 	isAcq := false
 	for _, c := range l.a.calleesOf(call) {
-		if t, ok := l.byFn[c]; ok && t.name == lkSemAcquire {
+		if t, ok := l.byFn[c]; ok && t.name == lpSemAcquire {
 			isAcq = true
 		}
 	}
@@ -466,17 +466,17 @@ func (l *lkAnalysis) semAcquireIf(s *ast.IfStmt) bool {
 	be, ok := s.Cond.(*ast.BinaryExpr)
 	lhs, ok2 := as.Lhs[0].(*ast.Ident)
 	if !ok || !ok2 || be.Op != token.NEQ || s.Else != nil {
-		failf("lock sites: unexpected use of %s at %s", lkSemAcquire, l.t.pos(s))
+		failf("lock sites: unexpected use of %s at %s", lpSemAcquire, l.t.pos(s))
 	}
 	x, okx := be.X.(*ast.Ident)
 	y, oky := be.Y.(*ast.Ident)
 	if !okx || !oky || x.Name != lhs.Name || y.Name != "nil" {
-		failf("lock sites: unexpected use of %s at %s", lkSemAcquire, l.t.pos(s))
+		failf("lock sites: unexpected use of %s at %s", lpSemAcquire, l.t.pos(s))
 	}
 	return true
 }
 
-func (l *lkAnalysis) stmt(u *lkUnit, s ast.Stmt) []lkStmt {
+func (l *lpAnalysis) stmt(u *lpUnit, s ast.Stmt) []lpStmt {
 	switch x := s.(type) {
 	case nil:
 		return nil
@@ -485,9 +485,9 @@ func (l *lkAnalysis) stmt(u *lkUnit, s ast.Stmt) []lkStmt {
 	case *ast.ExprStmt:
 		return l.exprEvents(u, x.X)
 	case *ast.AssignStmt:
-		var out []lkStmt
+		var out []lpStmt
 		for i, r := range x.Rhs {
-			if len(x.Lhs) == len(x.Rhs) && lkIsFuncTyped(l.a.typeOf(r)) {
+			if len(x.Lhs) == len(x.Rhs) && lpIsFuncTyped(l.a.typeOf(r)) {
 				if sel, ok := x.Lhs[i].(*ast.SelectorExpr); ok {
 					if s, ok := l.a.info.Selections[sel]; ok && s.Kind() == types.FieldVal {
 						if vals := l.funcValue(u, r); len(vals) > 0 {
@@ -516,7 +516,7 @@ func (l *lkAnalysis) stmt(u *lkUnit, s ast.Stmt) []lkStmt {
 		}
 		return out
 	case *ast.DeclStmt:
-		var out []lkStmt
+		var out []lpStmt
 		if gd, ok := x.Decl.(*ast.GenDecl); ok {
 			for _, sp := range gd.Specs {
 				if vs, ok := sp.(*ast.ValueSpec); ok {
@@ -538,10 +538,10 @@ func (l *lkAnalysis) stmt(u *lkUnit, s ast.Stmt) []lkStmt {
 	case *ast.SendStmt:
 		out := l.exprEvents(u, x.Chan)
 		out = append(out, l.exprEvents(u, x.Value)...)
-		return append(out, lkStmt{op: "block", note: l.t.pos(x) + " " + l.a.oneLine(x)})
+		return append(out, lpStmt{op: "block", note: l.t.pos(x) + " " + l.a.oneLine(x)})
 	case *ast.GoStmt:
 		// the call runs in another goroutine; its arguments are evaluated here
-		var out []lkStmt
+		var out []lpStmt
 		if lit, ok := x.Call.Fun.(*ast.FuncLit); ok {
 			l.litUnit(u, lit)
 		} else {
@@ -556,11 +556,11 @@ func (l *lkAnalysis) stmt(u *lkUnit, s ast.Stmt) []lkStmt {
 			if op != "unlock" {
 				failf("lock sites: deferred %s at %s", l.t.src(x.Call), l.t.pos(x))
 			}
-			return []lkStmt{{op: "defer", m: m, rd: rd, note: l.t.pos(x) + " " + l.a.oneLine(x)}}
+			return []lpStmt{{op: "defer", m: m, rd: rd, note: l.t.pos(x) + " " + l.a.oneLine(x)}}
 		}
 		for _, c := range l.a.calleesOf(x.Call) {
-			if t, ok := l.byFn[c]; ok && t.name == lkSemRelease {
-				return []lkStmt{{op: "defer", m: l.sem, note: l.t.pos(x) + " " + l.a.oneLine(x)}}
+			if t, ok := l.byFn[c]; ok && t.name == lpSemRelease {
+				return []lpStmt{{op: "defer", m: l.sem, note: l.t.pos(x) + " " + l.a.oneLine(x)}}
 			}
 		}
 		// any other deferred call: its events are placed here (it runs at the exits; a
@@ -568,37 +568,37 @@ func (l *lkAnalysis) stmt(u *lkUnit, s ast.Stmt) []lkStmt {
 		// attributed to the region open at the defer statement -- an approximation)
 		return l.exprEvents(u, x.Call)
 	case *ast.ReturnStmt:
-		var out []lkStmt
+		var out []lpStmt
 		for _, r := range x.Results {
 			out = append(out, l.exprEvents(u, r)...)
 		}
-		return append(out, lkStmt{op: "ret", note: l.t.pos(x)})
+		return append(out, lpStmt{op: "ret", note: l.t.pos(x)})
 	case *ast.BranchStmt:
 		if x.Label != nil || x.Tok == token.GOTO {
-			return []lkStmt{{op: "unsupported", note: l.t.pos(x) + " labelled branch"}}
+			return []lpStmt{{op: "unsupported", note: l.t.pos(x) + " labelled branch"}}
 		}
 		switch x.Tok {
 		case token.BREAK:
-			return []lkStmt{{op: "break", note: l.t.pos(x)}}
+			return []lpStmt{{op: "break", note: l.t.pos(x)}}
 		case token.CONTINUE:
-			return []lkStmt{{op: "cont", note: l.t.pos(x)}}
+			return []lpStmt{{op: "cont", note: l.t.pos(x)}}
 		}
-		return []lkStmt{{op: "unsupported", note: l.t.pos(x) + " fallthrough"}}
+		return []lpStmt{{op: "unsupported", note: l.t.pos(x) + " fallthrough"}}
 	case *ast.LabeledStmt:
-		return append([]lkStmt{{op: "unsupported", note: l.t.pos(x) + " label"}}, l.stmt(u, x.Stmt)...)
+		return append([]lpStmt{{op: "unsupported", note: l.t.pos(x) + " label"}}, l.stmt(u, x.Stmt)...)
 	case *ast.IfStmt:
 		if l.semAcquireIf(x) {
 			then := l.stmts(u, x.Body.List)
-			return []lkStmt{{op: "semif", a: then, m: l.sem, note: l.t.pos(x) + " " + l.a.oneLine(x.Init)}}
+			return []lpStmt{{op: "semif", a: then, m: l.sem, note: l.t.pos(x) + " " + l.a.oneLine(x.Init)}}
 		}
 		out := l.stmt(u, x.Init)
 		out = append(out, l.exprEvents(u, x.Cond)...)
 		then := l.stmts(u, x.Body.List)
-		var els []lkStmt
+		var els []lpStmt
 		if x.Else != nil {
 			els = l.stmt(u, x.Else)
 		}
-		return append(out, lkStmt{op: "alt", a: then, b: els})
+		return append(out, lpStmt{op: "alt", a: then, b: els})
 	case *ast.SwitchStmt:
 		out := l.stmt(u, x.Init)
 		out = append(out, l.exprEvents(u, x.Tag)...)
@@ -608,7 +608,7 @@ func (l *lkAnalysis) stmt(u *lkUnit, s ast.Stmt) []lkStmt {
 		out = append(out, l.stmt(u, x.Assign)...)
 		return append(out, l.clauses(u, x.Body.List)...)
 	case *ast.SelectStmt:
-		var out []lkStmt
+		var out []lpStmt
 		hasDefault := false
 		for _, c := range x.Body.List {
 			if c.(*ast.CommClause).Comm == nil {
@@ -616,7 +616,7 @@ func (l *lkAnalysis) stmt(u *lkUnit, s ast.Stmt) []lkStmt {
 			}
 		}
 		if !hasDefault {
-			out = append(out, lkStmt{op: "block", note: l.t.pos(x) + " select"})
+			out = append(out, lpStmt{op: "block", note: l.t.pos(x) + " select"})
 		}
 		return append(out, l.clauses(u, x.Body.List)...)
 	case *ast.ForStmt:
@@ -629,32 +629,32 @@ func (l *lkAnalysis) stmt(u *lkUnit, s ast.Stmt) []lkStmt {
 		// refuse otherwise
 		for _, p := range post {
 			if p.op != "call" && p.op != "block" {
-				return append(out, lkStmt{op: "unsupported", note: l.t.pos(x) + " loop post statement with lock events"})
+				return append(out, lpStmt{op: "unsupported", note: l.t.pos(x) + " loop post statement with lock events"})
 			}
 		}
-		body = append(body, lkStmt{op: "alt", a: append(inner, post...), b: []lkStmt{{op: "break"}}})
-		return append(out, lkStmt{op: "loop", a: body})
+		body = append(body, lpStmt{op: "alt", a: append(inner, post...), b: []lpStmt{{op: "break"}}})
+		return append(out, lpStmt{op: "loop", a: body})
 	case *ast.RangeStmt:
 		out := l.exprEvents(u, x.X)
-		var body []lkStmt
+		var body []lpStmt
 		if tp := l.a.typeOf(x.X); tp != nil {
 			if _, isCh := tp.Underlying().(*types.Chan); isCh {
-				body = append(body, lkStmt{op: "block", note: l.t.pos(x) + " range over channel"})
+				body = append(body, lpStmt{op: "block", note: l.t.pos(x) + " range over channel"})
 			}
 		}
-		body = append(body, lkStmt{op: "alt", a: l.stmts(u, x.Body.List), b: []lkStmt{{op: "break"}}})
-		return append(out, lkStmt{op: "loop", a: body})
+		body = append(body, lpStmt{op: "alt", a: l.stmts(u, x.Body.List), b: []lpStmt{{op: "break"}}})
+		return append(out, lpStmt{op: "loop", a: body})
 	case *ast.EmptyStmt:
 		return nil
 	}
-	return []lkStmt{{op: "unsupported", note: fmt.Sprintf("%s statement %T", l.t.pos(s), s)}}
+	return []lpStmt{{op: "unsupported", note: fmt.Sprintf("%s statement %T", l.t.pos(s), s)}}
 }
 
 // clauses of a switch / select: one of the clause bodies (or none when there is no default);
 // a break inside ends the statement
-func (l *lkAnalysis) clauses(u *lkUnit, list []ast.Stmt) []lkStmt {
-	var pre []lkStmt
-	var alts [][]lkStmt
+func (l *lpAnalysis) clauses(u *lpUnit, list []ast.Stmt) []lpStmt {
+	var pre []lpStmt
+	var alts [][]lpStmt
 	hasDefault := false
 	for _, c := range list {
 		switch cc := c.(type) {
@@ -671,7 +671,7 @@ func (l *lkAnalysis) clauses(u *lkUnit, list []ast.Stmt) []lkStmt {
 				hasDefault = true
 			} else {
 				// the communication itself is the select's wait; calls inside it are evaluated first
-				var evs []lkStmt
+				var evs []lpStmt
 				for _, e := range l.stmt(u, cc.Comm) {
 					if e.op != "block" {
 						evs = append(evs, e)
@@ -685,20 +685,20 @@ func (l *lkAnalysis) clauses(u *lkUnit, list []ast.Stmt) []lkStmt {
 	if !hasDefault {
 		alts = append(alts, nil)
 	}
-	var tree []lkStmt
+	var tree []lpStmt
 	for i := len(alts) - 1; i >= 0; i-- {
 		if i == len(alts)-1 {
 			tree = alts[i]
 		} else {
-			tree = []lkStmt{{op: "alt", a: alts[i], b: tree}}
+			tree = []lpStmt{{op: "alt", a: alts[i], b: tree}}
 		}
 	}
-	return append(pre, lkStmt{op: "catch", a: tree})
+	return append(pre, lpStmt{op: "catch", a: tree})
 }
 
 // ---------------------------------------------------------------- summaries
 
-func (l *lkAnalysis) eachStmt(list []lkStmt, f func(s *lkStmt)) {
+func (l *lpAnalysis) eachStmt(list []lpStmt, f func(s *lpStmt)) {
 	for i := range list {
 		f(&list[i])
 		l.eachStmt(list[i].a, f)
@@ -706,24 +706,24 @@ func (l *lkAnalysis) eachStmt(list []lkStmt, f func(s *lkStmt)) {
 	}
 }
 
-func (l *lkAnalysis) resolveParamCalls() {
+func (l *lpAnalysis) resolveParamCalls() {
 	for _, u := range l.units {
-		l.eachStmt(u.raw, func(s *lkStmt) {
+		l.eachStmt(u.raw, func(s *lpStmt) {
 			if s.op == "fieldcall" {
 				s.op = "call"
-				s.callees = append([]*lkUnit(nil), l.fieldFn[s.fObj]...)
+				s.callees = append([]*lpUnit(nil), l.fieldFn[s.fObj]...)
 			}
 			if s.op == "paramcall" {
 				s.op = "call"
-				s.callees = append([]*lkUnit(nil), l.paramArgs[s.pOwner][s.pIdx]...)
+				s.callees = append([]*lpUnit(nil), l.paramArgs[s.pOwner][s.pIdx]...)
 			}
 		})
 	}
 }
 
-func (l *lkAnalysis) summaries() {
+func (l *lpAnalysis) summaries() {
 	for _, u := range l.units {
-		l.eachStmt(u.raw, func(s *lkStmt) {
+		l.eachStmt(u.raw, func(s *lpStmt) {
 			switch s.op {
 			case "block":
 				if !u.mayBlock {
@@ -740,7 +740,7 @@ func (l *lkAnalysis) summaries() {
 	for changed := true; changed; {
 		changed = false
 		for _, u := range l.units {
-			l.eachStmt(u.raw, func(s *lkStmt) {
+			l.eachStmt(u.raw, func(s *lpStmt) {
 				if s.op != "call" {
 					return
 				}
@@ -761,8 +761,8 @@ func (l *lkAnalysis) summaries() {
 	}
 }
 
-func lkSortedMutexes(set map[*lkMutex]bool) []*lkMutex {
-	var out []*lkMutex
+func lpSortedMutexes(set map[*lpMutex]bool) []*lpMutex {
+	var out []*lpMutex
 	for m := range set {
 		out = append(out, m)
 	}
@@ -771,12 +771,12 @@ func lkSortedMutexes(set map[*lkMutex]bool) []*lkMutex {
 }
 
 // finalise resolves call events to (blk, acq) and prunes what carries no event
-func (l *lkAnalysis) finalise(list []lkStmt) []lkStmt {
-	var out []lkStmt
+func (l *lpAnalysis) finalise(list []lpStmt) []lpStmt {
+	var out []lpStmt
 	for _, s := range list {
 		switch s.op {
 		case "call":
-			set := map[*lkMutex]bool{}
+			set := map[*lpMutex]bool{}
 			why := ""
 			for _, c := range s.callees {
 				if c.mayBlock {
@@ -789,7 +789,7 @@ func (l *lkAnalysis) finalise(list []lkStmt) []lkStmt {
 					set[m] = true
 				}
 			}
-			s.acq = lkSortedMutexes(set)
+			s.acq = lpSortedMutexes(set)
 			if !s.blk && len(s.acq) == 0 {
 				continue
 			}
@@ -823,14 +823,14 @@ func (l *lkAnalysis) finalise(list []lkStmt) []lkStmt {
 // ---------------------------------------------------------------- the translator's own run
 // (rank witness and a readable report only; the decision is Coq's)
 
-type lkState struct{ held, dfr string }
-type lkOut struct {
+type lpState struct{ held, dfr string }
+type lpOut struct {
 	ctl string
-	st  lkState
+	st  lpState
 }
 
-func lkPush(s, item string) string { return item + "," + s }
-func lkRemove(s, item string) (string, bool) {
+func lpPush(s, item string) string { return item + "," + s }
+func lpRemove(s, item string) (string, bool) {
 	parts := strings.Split(s, ",")
 	for i, p := range parts {
 		if p == item {
@@ -840,23 +840,23 @@ func lkRemove(s, item string) (string, bool) {
 	return s, false
 }
 
-type lkRun struct {
-	l      *lkAnalysis
-	unit   *lkUnit
-	edges  map[[2]*lkMutex]string // (outer, inner) -> where
-	blocks map[*lkMutex]string    // mutex -> blocking event under it
+type lpRun struct {
+	l      *lpAnalysis
+	unit   *lpUnit
+	edges  map[[2]*lpMutex]string // (outer, inner) -> where
+	blocks map[*lpMutex]string    // mutex -> blocking event under it
 	errs   []string
 }
 
-func lkItem(m *lkMutex, rd bool) string {
+func lpItem(m *lpMutex, rd bool) string {
 	if rd {
 		return m.name + ":r"
 	}
 	return m.name + ":w"
 }
 
-func (r *lkRun) heldMutexes(held string) []*lkMutex {
-	var out []*lkMutex
+func (r *lpRun) heldMutexes(held string) []*lpMutex {
+	var out []*lpMutex
 	for _, p := range strings.Split(held, ",") {
 		if p == "" {
 			continue
@@ -866,20 +866,20 @@ func (r *lkRun) heldMutexes(held string) []*lkMutex {
 	return out
 }
 
-func (r *lkRun) exec(list []lkStmt, st lkState) []lkOut {
-	cur := []lkState{st}
-	var outs []lkOut
-	seen := map[lkOut]bool{}
-	add := func(o lkOut) {
+func (r *lpRun) exec(list []lpStmt, st lpState) []lpOut {
+	cur := []lpState{st}
+	var outs []lpOut
+	seen := map[lpOut]bool{}
+	add := func(o lpOut) {
 		if !seen[o] {
 			seen[o] = true
 			outs = append(outs, o)
 		}
 	}
 	for _, s := range list {
-		var next []lkState
-		nseen := map[lkState]bool{}
-		fall := func(x lkState) {
+		var next []lpState
+		nseen := map[lpState]bool{}
+		fall := func(x lpState) {
 			if !nseen[x] {
 				nseen[x] = true
 				next = append(next, x)
@@ -889,19 +889,19 @@ func (r *lkRun) exec(list []lkStmt, st lkState) []lkOut {
 			switch s.op {
 			case "lock":
 				for _, h := range r.heldMutexes(c.held) {
-					r.edges[[2]*lkMutex{h, s.m}] = r.unit.name + " " + s.note
+					r.edges[[2]*lpMutex{h, s.m}] = r.unit.name + " " + s.note
 				}
-				fall(lkState{lkPush(c.held, lkItem(s.m, s.rd)), c.dfr})
+				fall(lpState{lpPush(c.held, lpItem(s.m, s.rd)), c.dfr})
 			case "unlock":
-				h, ok := lkRemove(c.held, lkItem(s.m, s.rd))
+				h, ok := lpRemove(c.held, lpItem(s.m, s.rd))
 				if !ok {
 					r.errs = append(r.errs, fmt.Sprintf("%s: %s releases a lock that is not held", r.unit.name, s.note))
-					add(lkOut{"panic", c})
+					add(lpOut{"panic", c})
 					continue
 				}
-				fall(lkState{h, c.dfr})
+				fall(lpState{h, c.dfr})
 			case "defer":
-				fall(lkState{c.held, lkPush(c.dfr, lkItem(s.m, s.rd))})
+				fall(lpState{c.held, lpPush(c.dfr, lpItem(s.m, s.rd))})
 			case "block":
 				for _, h := range r.heldMutexes(c.held) {
 					if _, ok := r.blocks[h]; !ok {
@@ -917,12 +917,12 @@ func (r *lkRun) exec(list []lkStmt, st lkState) []lkOut {
 						}
 					}
 					for _, m := range s.acq {
-						r.edges[[2]*lkMutex{h, m}] = r.unit.name + " " + s.note
+						r.edges[[2]*lpMutex{h, m}] = r.unit.name + " " + s.note
 					}
 				}
 				fall(c)
 			case "ret", "panic", "break", "cont":
-				add(lkOut{s.op, c})
+				add(lpOut{s.op, c})
 			case "alt":
 				for _, o := range append(r.exec(s.a, c), r.exec(s.b, c)...) {
 					if o.ctl == "fall" {
@@ -940,9 +940,9 @@ func (r *lkRun) exec(list []lkStmt, st lkState) []lkOut {
 					}
 				}
 				for _, h := range r.heldMutexes(c.held) {
-					r.edges[[2]*lkMutex{h, s.m}] = r.unit.name + " " + s.note
+					r.edges[[2]*lpMutex{h, s.m}] = r.unit.name + " " + s.note
 				}
-				fall(lkState{lkPush(c.held, lkItem(s.m, false)), c.dfr})
+				fall(lpState{lpPush(c.held, lpItem(s.m, false)), c.dfr})
 			case "catch":
 				for _, o := range r.exec(s.a, c) {
 					if o.ctl == "fall" || o.ctl == "break" {
@@ -973,14 +973,14 @@ func (r *lkRun) exec(list []lkStmt, st lkState) []lkOut {
 		cur = next
 	}
 	for _, c := range cur {
-		add(lkOut{"fall", c})
+		add(lpOut{"fall", c})
 	}
 	return outs
 }
 
-func (r *lkRun) runUnit(u *lkUnit, prog []lkStmt) {
+func (r *lpRun) runUnit(u *lpUnit, prog []lpStmt) {
 	r.unit = u
-	for _, o := range r.exec(prog, lkState{}) {
+	for _, o := range r.exec(prog, lpState{}) {
 		switch o.ctl {
 		case "panic":
 			continue
@@ -994,7 +994,7 @@ func (r *lkRun) runUnit(u *lkUnit, prog []lkStmt) {
 				continue
 			}
 			var ok bool
-			if held, ok = lkRemove(held, d); !ok {
+			if held, ok = lpRemove(held, d); !ok {
 				r.errs = append(r.errs, fmt.Sprintf("%s: a deferred unlock of %s finds it not held", u.name, d))
 			}
 		}
@@ -1006,7 +1006,7 @@ func (r *lkRun) runUnit(u *lkUnit, prog []lkStmt) {
 
 // ---------------------------------------------------------------- output
 
-func lkCoqBlock(list []lkStmt, indent string, w *bytes.Buffer) {
+func lpCoqBlock(list []lpStmt, indent string, w *bytes.Buffer) {
 	if len(list) == 0 {
 		w.WriteString("BNil")
 		return
@@ -1018,7 +1018,7 @@ func lkCoqBlock(list []lkStmt, indent string, w *bytes.Buffer) {
 			sep = ""
 		}
 		w.WriteString(indent + "  ")
-		lkCoqStmt(s, indent+"  ", w)
+		lpCoqStmt(s, indent+"  ", w)
 		w.WriteString(sep)
 		if s.note != "" && s.op != "alt" && s.op != "loop" && s.op != "catch" {
 			fmt.Fprintf(w, " (* %s *)", strings.ReplaceAll(strings.ReplaceAll(s.note, "(*", "( *"), "*)", "* )"))
@@ -1028,21 +1028,21 @@ func lkCoqBlock(list []lkStmt, indent string, w *bytes.Buffer) {
 	w.WriteString(indent + "]")
 }
 
-func lkBool(b bool) string {
+func lpBool(b bool) string {
 	if b {
 		return "true"
 	}
 	return "false"
 }
 
-func lkCoqStmt(s lkStmt, indent string, w *bytes.Buffer) {
+func lpCoqStmt(s lpStmt, indent string, w *bytes.Buffer) {
 	switch s.op {
 	case "lock":
-		fmt.Fprintf(w, "SLock %d %s", s.m.rank, lkBool(s.rd))
+		fmt.Fprintf(w, "SLock %d %s", s.m.rank, lpBool(s.rd))
 	case "unlock":
-		fmt.Fprintf(w, "SUnlock %d %s", s.m.rank, lkBool(s.rd))
+		fmt.Fprintf(w, "SUnlock %d %s", s.m.rank, lpBool(s.rd))
 	case "defer":
-		fmt.Fprintf(w, "SDefer %d %s", s.m.rank, lkBool(s.rd))
+		fmt.Fprintf(w, "SDefer %d %s", s.m.rank, lpBool(s.rd))
 	case "block":
 		w.WriteString("SBlock")
 	case "call":
@@ -1050,7 +1050,7 @@ func lkCoqStmt(s lkStmt, indent string, w *bytes.Buffer) {
 		for _, m := range s.acq {
 			ids = append(ids, fmt.Sprint(m.rank))
 		}
-		fmt.Fprintf(w, "SCall %s [%s]", lkBool(s.blk), strings.Join(ids, "; "))
+		fmt.Fprintf(w, "SCall %s [%s]", lpBool(s.blk), strings.Join(ids, "; "))
 	case "ret":
 		w.WriteString("SRet")
 	case "panic":
@@ -1061,22 +1061,22 @@ func lkCoqStmt(s lkStmt, indent string, w *bytes.Buffer) {
 		w.WriteString("SCont")
 	case "alt":
 		w.WriteString("SAlt (")
-		lkCoqBlock(s.a, indent, w)
+		lpCoqBlock(s.a, indent, w)
 		w.WriteString(") (")
-		lkCoqBlock(s.b, indent, w)
+		lpCoqBlock(s.b, indent, w)
 		w.WriteString(")")
 	case "semif":
 		// the acquisition failed: the then-branch; it succeeded: the semaphore is held from here on
 		w.WriteString("SAlt (")
-		lkCoqBlock(s.a, indent, w)
+		lpCoqBlock(s.a, indent, w)
 		fmt.Fprintf(w, ") (B[ SLock %d false ])", s.m.rank)
 	case "loop":
 		w.WriteString("SLoop (")
-		lkCoqBlock(s.a, indent, w)
+		lpCoqBlock(s.a, indent, w)
 		w.WriteString(")")
 	case "catch":
 		w.WriteString("SCatch (")
-		lkCoqBlock(s.a, indent, w)
+		lpCoqBlock(s.a, indent, w)
 		w.WriteString(")")
 	default:
 		// an unsupported statement in a function that takes locks: a release of a mutex that
@@ -1085,13 +1085,13 @@ func lkCoqStmt(s lkStmt, indent string, w *bytes.Buffer) {
 	}
 }
 
-// lockSites writes Gen/GenLockSites.v.
-func (t *translator) lockSites(w *bytes.Buffer) (nprogs, nmutex, nsites int) {
+// lockSites writes Gen/GenLockProgs.v.
+func (t *translator) lockProgs(w *bytes.Buffer) (nprogs, nmutex, nsites int) {
 	a := newWsAnalysis(t)
 	a.computeClosure()
-	l := &lkAnalysis{a: a, t: t, byFn: map[*types.Func]*lkUnit{}, byLit: map[*ast.FuncLit]*lkUnit{}, localFn: map[types.Object][]*lkUnit{},
-		paramArgs: map[*lkUnit]map[int][]*lkUnit{}, fieldFn: map[types.Object][]*lkUnit{}, mutexes: map[string]*lkMutex{}}
-	l.sem = l.mutex(lkSemName)
+	l := &lpAnalysis{a: a, t: t, byFn: map[*types.Func]*lpUnit{}, byLit: map[*ast.FuncLit]*lpUnit{}, localFn: map[types.Object][]*lpUnit{},
+		paramArgs: map[*lpUnit]map[int][]*lpUnit{}, fieldFn: map[types.Object][]*lpUnit{}, mutexes: map[string]*lpMutex{}}
+	l.sem = l.mutex(lpSemName)
 	l.sem.sem = true
 	var fns []*types.Func
 	for fn := range a.decl {
@@ -1102,11 +1102,11 @@ func (t *translator) lockSites(w *bytes.Buffer) (nprogs, nmutex, nsites int) {
 		fd := a.decl[fn]
 		l.byFn[fn] = l.newUnit(a.name[fn], fn, fd.Type, fd.Body, nil)
 	}
-	if _, ok := t.funcs[lkSemAcquire]; !ok {
-		failf("lock sites: %s not found", lkSemAcquire)
+	if _, ok := t.funcs[lpSemAcquire]; !ok {
+		failf("lock sites: %s not found", lpSemAcquire)
 	}
-	if _, ok := t.funcs[lkSemRelease]; !ok {
-		failf("lock sites: %s not found", lkSemRelease)
+	if _, ok := t.funcs[lpSemRelease]; !ok {
+		failf("lock sites: %s not found", lpSemRelease)
 	}
 	for _, fn := range fns {
 		u := l.byFn[fn]
@@ -1116,34 +1116,34 @@ func (t *translator) lockSites(w *bytes.Buffer) (nprogs, nmutex, nsites int) {
 	l.summaries()
 	// the semaphore helpers themselves are wait sites (waitsites.go), not lock programs
 	type prog struct {
-		u    *lkUnit
-		body []lkStmt
+		u    *lpUnit
+		body []lpStmt
 	}
 	var progs []prog
 	for _, u := range l.units {
-		if !u.hasLock || u.name == lkSemAcquire || u.name == lkSemRelease {
+		if !u.hasLock || u.name == lpSemAcquire || u.name == lpSemRelease {
 			continue
 		}
 		progs = append(progs, prog{u, l.finalise(u.raw)})
 	}
 	sort.SliceStable(progs, func(i, j int) bool { return progs[i].u.name < progs[j].u.name })
 	// rank witness: topological order of "inner is taken while outer is held"
-	run := &lkRun{l: l, edges: map[[2]*lkMutex]string{}, blocks: map[*lkMutex]string{}}
+	run := &lpRun{l: l, edges: map[[2]*lpMutex]string{}, blocks: map[*lpMutex]string{}}
 	for _, p := range progs {
 		run.runUnit(p.u, p.body)
 	}
-	var ms []*lkMutex
+	var ms []*lpMutex
 	for _, m := range l.mutexes {
 		ms = append(ms, m)
 	}
 	sort.Slice(ms, func(i, j int) bool { return ms[i].name < ms[j].name })
-	inner := map[*lkMutex][]*lkMutex{}
+	inner := map[*lpMutex][]*lpMutex{}
 	for e := range run.edges {
 		inner[e[0]] = append(inner[e[0]], e[1])
 	}
-	depth := map[*lkMutex]int{}
-	var visit func(m *lkMutex, path map[*lkMutex]bool) int
-	visit = func(m *lkMutex, path map[*lkMutex]bool) int {
+	depth := map[*lpMutex]int{}
+	var visit func(m *lpMutex, path map[*lpMutex]bool) int
+	visit = func(m *lpMutex, path map[*lpMutex]bool) int {
 		if d, ok := depth[m]; ok {
 			return d
 		}
@@ -1165,22 +1165,22 @@ func (t *translator) lockSites(w *bytes.Buffer) (nprogs, nmutex, nsites int) {
 		return d
 	}
 	for _, m := range ms {
-		visit(m, map[*lkMutex]bool{})
+		visit(m, map[*lpMutex]bool{})
 	}
 	sort.SliceStable(ms, func(i, j int) bool { return depth[ms[i]] < depth[ms[j]] })
 	for i, m := range ms {
 		m.rank = i
 	}
 
-	fmt.Fprintf(w, "From Verif Require Import Spec.WaitSpec Spec.LockSpec.\n\n")
-	fmt.Fprintf(w, "(* Mutexes of package tchannel (go2v/locksites.go), numbered so that a mutex taken inside a critical\n   section has a SMALLER number than every mutex held there (a witness; checked in Coq).\n   is_sem: the channel semaphore of peer.go, whose acquisition has a ctx exit. *)\n")
-	fmt.Fprintf(w, "Definition lock_mutexes : list lmutex := [\n")
+	fmt.Fprintf(w, "From Verif Require Import Spec.WaitSpec Spec.LockProgSpec.\n\n")
+	fmt.Fprintf(w, "(* Mutexes of package tchannel (go2v/lockprogs.go), numbered so that a mutex taken inside a critical\n   section has a SMALLER number than every mutex held there (a witness; checked in Coq).\n   is_sem: the channel semaphore of peer.go, whose acquisition has a ctx exit. *)\n")
+	fmt.Fprintf(w, "Definition lockp_mutexes : list lmutex := [\n")
 	for i, m := range ms {
 		sep := ";"
 		if i == len(ms)-1 {
 			sep = ""
 		}
-		fmt.Fprintf(w, "  (* %s *) mkLmutex %d %s %s%s\n", m.name, m.rank, strlit(m.name), lkBool(m.sem), sep)
+		fmt.Fprintf(w, "  (* %s *) mkLmutex %d %s %s%s\n", m.name, m.rank, strlit(m.name), lpBool(m.sem), sep)
 	}
 	fmt.Fprintf(w, "].\n\n")
 	var report []string
@@ -1198,7 +1198,7 @@ func (t *translator) lockSites(w *bytes.Buffer) (nprogs, nmutex, nsites int) {
 	}
 	fmt.Fprintf(w, "*)\n\n")
 	fmt.Fprintf(w, "(* Lock programs: every function / function literal of the package that performs a lock operation. *)\n")
-	fmt.Fprintf(w, "Definition lock_progs : list lfunc := [\n")
+	fmt.Fprintf(w, "Definition lockp_progs : list lfunc := [\n")
 	for i, p := range progs {
 		sep := ";"
 		if i == len(progs)-1 {
@@ -1206,20 +1206,20 @@ func (t *translator) lockSites(w *bytes.Buffer) (nprogs, nmutex, nsites int) {
 		}
 		pp := t.fset.Position(p.u.pos)
 		fmt.Fprintf(w, "  (* %s:%d %s *)\n  mkLfunc %s (", filepath.Base(pp.Filename), pp.Line, p.u.name, strlit(p.u.name))
-		lkCoqBlock(p.body, "  ", w)
+		lpCoqBlock(p.body, "  ", w)
 		fmt.Fprintf(w, ")%s\n", sep)
 	}
 	fmt.Fprintf(w, "].\n\n")
 
 	// lock acquisitions on the call path: closure of waitEntries (the caller's goroutine) and of
-	// lockEntries (connection goroutines, inbound side, relay)
+	// lockProgEntries (connection goroutines, inbound side, relay)
 	byName := map[string]*types.Func{}
 	for fn, n := range a.name {
 		byName[n] = fn
 	}
-	closure := func(entries []string) map[*lkUnit]bool {
-		out := map[*lkUnit]bool{}
-		var work []*lkUnit
+	closure := func(entries []string) map[*lpUnit]bool {
+		out := map[*lpUnit]bool{}
+		var work []*lpUnit
 		for _, e := range entries {
 			fn, ok := byName[e]
 			if !ok {
@@ -1233,7 +1233,7 @@ func (t *translator) lockSites(w *bytes.Buffer) (nprogs, nmutex, nsites int) {
 		for len(work) > 0 {
 			u := work[len(work)-1]
 			work = work[:len(work)-1]
-			l.eachStmt(u.raw, func(s *lkStmt) {
+			l.eachStmt(u.raw, func(s *lpStmt) {
 				if s.op != "call" {
 					return
 				}
@@ -1248,8 +1248,8 @@ func (t *translator) lockSites(w *bytes.Buffer) (nprogs, nmutex, nsites int) {
 		return out
 	}
 	callerSet := closure(waitEntries)
-	connSet := closure(append(append([]string(nil), waitEntries...), lockEntries...))
-	emitSites := func(name string, set map[*lkUnit]bool, comment string) int {
+	connSet := closure(append(append([]string(nil), waitEntries...), lockProgEntries...))
+	emitSites := func(name string, set map[*lpUnit]bool, comment string) int {
 		n := 0
 		fmt.Fprintf(w, "(* %s *)\nDefinition %s : list lsite := [", comment, name)
 		first := true
@@ -1257,7 +1257,7 @@ func (t *translator) lockSites(w *bytes.Buffer) (nprogs, nmutex, nsites int) {
 			if !set[p.u] {
 				continue
 			}
-			l.eachStmt(p.body, func(s *lkStmt) {
+			l.eachStmt(p.body, func(s *lpStmt) {
 				if s.op != "lock" {
 					return
 				}
@@ -1265,15 +1265,15 @@ func (t *translator) lockSites(w *bytes.Buffer) (nprogs, nmutex, nsites int) {
 					fmt.Fprintf(w, ";")
 				}
 				first = false
-				fmt.Fprintf(w, "\n  (* %s *)\n  mkLsite %s %d %s", strings.ReplaceAll(strings.ReplaceAll(s.note, "(*", "( *"), "*)", "* )"), strlit(p.u.name), s.m.rank, lkBool(s.rd))
+				fmt.Fprintf(w, "\n  (* %s *)\n  mkLsite %s %d %s", strings.ReplaceAll(strings.ReplaceAll(s.note, "(*", "( *"), "*)", "* )"), strlit(p.u.name), s.m.rank, lpBool(s.rd))
 				n++
 			})
 		}
 		fmt.Fprintf(w, "\n].\n\n")
 		return n
 	}
-	nsites = emitSites("lock_sites", callerSet, "lock acquisitions in the closure of the caller-side entry points of waitsites.go (the goroutine of the caller of an outbound call, and forwardPeerFrame)")
-	emitSites("lock_sites_conn", connSet, "... and in the closure of the connection goroutines, the inbound side of a call, the relay and the connection failure path: "+strings.Join(lockEntries, ", "))
+	nsites = emitSites("lockp_sites", callerSet, "lock acquisitions in the closure of the caller-side entry points of waitsites.go (the goroutine of the caller of an outbound call, and forwardPeerFrame)")
+	emitSites("lockp_sites_conn", connSet, "... and in the closure of the connection goroutines, the inbound side of a call, the relay and the connection failure path: "+strings.Join(lockProgEntries, ", "))
 	for _, e := range run.errs {
 		fmt.Printf("go2v: lock programs: %s\n", e)
 	}
@@ -1290,7 +1290,7 @@ func (t *translator) lockSites(w *bytes.Buffer) (nprogs, nmutex, nsites int) {
 	return len(progs), len(ms), nsites
 }
 
-func (t *translator) lockSitesSafe(w *bytes.Buffer, repo string) (nprogs, nmutex, nsites int) {
+func (t *translator) lockProgsSafe(w *bytes.Buffer, repo string) (nprogs, nmutex, nsites int) {
 	defer func() {
 		if r := recover(); r != nil {
 			f, ok := r.(failure)
@@ -1299,11 +1299,11 @@ func (t *translator) lockSitesSafe(w *bytes.Buffer, repo string) (nprogs, nmutex
 			}
 			w.Reset()
 			fmt.Fprintf(w, header, repo)
-			fmt.Fprintf(w, "From Verif Require Import Spec.WaitSpec Spec.LockSpec.\n\n(* EXTRACTION FAILED: %s *)\n", strings.ReplaceAll(f.msg, "*)", "* )"))
-			fmt.Fprintf(w, "Definition lock_mutexes : list lmutex := [].\nDefinition lock_progs : list lfunc := [mkLfunc [] (B[ SUnlock (-1) false ])].\nDefinition lock_sites : list lsite := [mkLsite [] (-1) false].\nDefinition lock_sites_conn : list lsite := [mkLsite [] (-1) false].\n")
+			fmt.Fprintf(w, "From Verif Require Import Spec.WaitSpec Spec.LockProgSpec.\n\n(* EXTRACTION FAILED: %s *)\n", strings.ReplaceAll(f.msg, "*)", "* )"))
+			fmt.Fprintf(w, "Definition lockp_mutexes : list lmutex := [].\nDefinition lockp_progs : list lfunc := [mkLfunc [] (B[ SUnlock (-1) false ])].\nDefinition lockp_sites : list lsite := [mkLsite [] (-1) false].\nDefinition lockp_sites_conn : list lsite := [mkLsite [] (-1) false].\n")
 			fmt.Printf("go2v: LOCK-SITE EXTRACTION FAILED: %s\n", f.msg)
 			nprogs, nmutex, nsites = 0, 0, 0
 		}
 	}()
-	return t.lockSites(w)
+	return t.lockProgs(w)
 }
